@@ -27,7 +27,7 @@ def observe_gen(dobj, d, pk):
                 x = True
         g["y" + mode] = y
         g["x" + mode] = x
-        g["w" + mode] = any("did not match the length of data available" in str(m.message) for m in w)
+        g["w" + mode] = core.flag_warnings(w) > 0
     return g
 
 
